@@ -128,8 +128,13 @@ def simulate(p, n, dtype):
         dt_s = float(sim.compute_stable_timestep())
         if not np.isfinite(dt_s) or dt_s <= 0:
             return {"err_end": float("inf"), "err_max": float("inf"), "steps": steps, "regime_ok": False, "bad_dt": dt_s}
-        is_diff = abs(dt_s - diff_lim) <= 1e-3 * diff_lim
-        if (p["path"] == "B") != is_diff:
+        # which limit SHOULD be active is decided from the parameters (documented limits), not from the dt the simulator
+        # returned: a simulator that recommends a wrong step in the intended regime must fail the convergence oracle,
+        # not be discarded as "wrong regime"
+        adv_lim = p["cfl"] * dx / (float(np.max(np.sum(np.abs(np.asarray(sim.velocity_field, np.float64)), axis=0))) + 1e-300)
+        is_diff = diff_lim < adv_lim
+        margin = max(diff_lim, adv_lim) / min(diff_lim, adv_lim)
+        if (p["path"] == "B") != is_diff or margin < 1.05:
             regime_ok = False
         dt = min(dt_s, t_end - float(sim.time))
         if p["case"] == "lamb_oseen":
